@@ -8,6 +8,7 @@ mod datatype;
 mod hashiter;
 mod iterinj;
 mod reorg;
+mod addinstr;
 
 #[macro_export]
 macro_rules! shape_changed {
@@ -45,6 +46,7 @@ fn main() {
         "GenHashIter" => hashiter::generate(&a[2], &a[3]),
         "GenIterInj" => iterinj::generate(&a[2], &a[3]),
         "GenReorg" => reorg::generate(&a[2], &a[3]),
+        "GenAddInstr" => addinstr::generate(&a[2], &a[3]),
         other => { eprintln!("unknown generator {other}"); std::process::exit(2) }
     }
 }
